@@ -316,3 +316,125 @@ Proof.
   rewrite <- plain_sum_is_quadratic_form_l by (simpl; lia).
   cbn [wsqdiffs sqdiffs sqdiffs_from zipw nsum]. unfold sq. cbn [add sub mul div zero NumR]. lra.
 Qed.
+
+(* ---------------------------------------------------------------- integrated forms *)
+Lemma half_dim_R d : half_dim NumR d = INR d / 2.
+Proof. unfold half_dim. rewrite ofNat_INR, two_R. reflexivity. Qed.
+
+(* ln of the factor that does not depend on the integration variable *)
+Definition lnK_gmrf (ln2pi alpha beta lg_a : R) (d : nat) : R :=
+  alpha * ln beta - lg_a - INR d / 2 * ln2pi.
+Definition lnK_const (alpha beta lg_a : R) : R := alpha * ln beta - lg_a.
+
+(* pointwise, in log space: ln Gamma(tau; alpha, beta) + ln GMRF(x | tau)
+   = ln K(x) + (a' - 1) ln tau - b' tau,  a' = alpha + d/2, b' = beta + S/2 *)
+Lemma gmrf_integrand_log_l ln2pi alpha beta lg_a d S tau :
+  gamma_logpdf NumR alpha beta lg_a tau + gmrf_value NumR ln2pi d S tau =
+  lnK_gmrf ln2pi alpha beta lg_a d + (alpha + INR d / 2 - 1) * ln tau - (beta + S / 2) * tau.
+Proof.
+  unfold gamma_logpdf, gmrf_value, lnK_gmrf. rewrite ofNat_INR, two_R.
+  cbn [add sub mul div opp one nln NumR]. lra.
+Qed.
+(* the value the code reports = ln K(x) + lgamma a' - a' ln b' *)
+Lemma gmrf_integrated_value_l ln2pi alpha beta lg_a lg_a' d S :
+  gmrf_integrated_value NumR ln2pi alpha beta lg_a lg_a' d S =
+  lnK_gmrf ln2pi alpha beta lg_a d + lg_a' - (alpha + INR d / 2) * ln (beta + S / 2).
+Proof.
+  unfold gmrf_integrated_value, lnK_gmrf. rewrite half_dim_R, two_R.
+  cbn [add sub mul div opp one nln NumR]. replace (S / 2 + beta) with (beta + S / 2) by lra. lra.
+Qed.
+(* pointwise product of the densities: K(x) tau^(a'-1) e^(-b' tau) *)
+Lemma gmrf_integrand_product_l ln2pi alpha beta lg_a d S tau :
+  exp (gamma_logpdf NumR alpha beta lg_a tau) * exp (gmrf_value NumR ln2pi d S tau) =
+  exp (lnK_gmrf ln2pi alpha beta lg_a d) *
+  (Rpower tau (alpha + INR d / 2 - 1) * exp (- ((beta + S / 2) * tau))).
+Proof.
+  rewrite <- exp_plus, gmrf_integrand_log_l. unfold Rpower. rewrite <- !exp_plus. f_equal. lra.
+Qed.
+
+Lemma const_integrand_log_l alpha beta lg_a m S theta :
+  invgamma_logpdf NumR alpha beta lg_a theta + const_value NumR m S theta =
+  lnK_const alpha beta lg_a + (- (alpha + INR m) - 1) * ln theta - (beta + S) / theta.
+Proof.
+  unfold invgamma_logpdf, const_value, lnK_const. rewrite ofNat_INR.
+  cbn [add sub mul div opp one nln NumR]. unfold Rdiv. lra.
+Qed.
+Lemma const_integrated_value_l alpha beta lg_a lg_am m S :
+  const_integrated_value NumR alpha beta lg_a lg_am m S =
+  lnK_const alpha beta lg_a + lg_am - (alpha + INR m) * ln (beta + S).
+Proof.
+  unfold const_integrated_value, lnK_const. rewrite ofNat_INR. cbn [add sub mul div opp one nln NumR]. lra.
+Qed.
+Lemma const_integrand_product_l alpha beta lg_a m S theta :
+  exp (invgamma_logpdf NumR alpha beta lg_a theta) * exp (const_value NumR m S theta) =
+  exp (lnK_const alpha beta lg_a) *
+  (Rpower theta (- (alpha + INR m) - 1) * exp (- ((beta + S) / theta))).
+Proof.
+  rewrite <- exp_plus, const_integrand_log_l. unfold Rpower. rewrite <- !exp_plus. f_equal. lra.
+Qed.
+
+(* The lgamma oracle.  Coq's libraries here have no Gamma function: what is assumed about the
+   values math.lgamma returns is exactly the normalisation of the Gamma kernel (and of the
+   inverse-Gamma kernel, its image under t -> 1/t). *)
+Definition gamma_kernel_normalised (Lg : R -> R) : Prop :=
+  forall a b, 0 < a -> 0 < b ->
+  is_RInt_gen (fun t => Rpower t (a - 1) * exp (- (b * t))) (at_right 0) (Rbar_locally p_infty)
+              (exp (Lg a) / Rpower b a).
+Definition invgamma_kernel_normalised (Lg : R -> R) : Prop :=
+  forall a b, 0 < a -> 0 < b ->
+  is_RInt_gen (fun t => Rpower t (- a - 1) * exp (- (b / t))) (at_right 0) (Rbar_locally p_infty)
+              (exp (Lg a) / Rpower b a).
+
+Section Oracle.
+Variable Lg : R -> R.
+Hypothesis gamma_kernel : gamma_kernel_normalised Lg.
+Hypothesis invgamma_kernel : invgamma_kernel_normalised Lg.
+
+Lemma scaled_kernel_integral (f g : R -> R) (lnK v a' b' l : R) :
+  (forall t, f t = exp lnK * g t) ->
+  is_RInt_gen g (at_right 0) (Rbar_locally p_infty) (exp v / Rpower b' a') ->
+  l = lnK + v - a' * ln b' ->
+  is_RInt_gen f (at_right 0) (Rbar_locally p_infty) (exp l).
+Proof.
+  intros Hf Hg ->.
+  apply (is_RInt_gen_scal _ (exp lnK)) in Hg.
+  replace (exp (lnK + v - a' * ln b')) with (scal (exp lnK) (exp v / Rpower b' a')).
+  - eapply is_RInt_gen_ext; [|exact Hg].
+    apply filter_forall. intros ab t _. rewrite Hf. reflexivity.
+  - unfold scal; simpl; unfold mult; simpl. unfold Rpower, Rdiv.
+    rewrite <- exp_Ropp, <- !exp_plus. f_equal. lra.
+Qed.
+
+(* GMRFGammaIntegrated = integral over tau of Gamma(tau; alpha, beta) * GMRF(x | tau) *)
+Lemma gmrf_integrated_is_integral_l ln2pi alpha beta d S :
+  0 < alpha -> 0 < beta -> 0 <= S ->
+  is_RInt_gen (fun tau => exp (gamma_logpdf NumR alpha beta (Lg alpha) tau) *
+                          exp (gmrf_value NumR ln2pi d S tau))
+    (at_right 0) (Rbar_locally p_infty)
+    (exp (gmrf_integrated_value NumR ln2pi alpha beta (Lg alpha) (Lg (alpha + INR d / 2)) d S)).
+Proof.
+  intros Ha Hb HS.
+  assert (0 <= INR d) by apply pos_INR.
+  eapply scaled_kernel_integral.
+  - intros t. apply gmrf_integrand_product_l.
+  - apply gamma_kernel; lra.
+  - apply gmrf_integrated_value_l.
+Qed.
+
+(* ConstantCoalescentIntegrated = integral over theta of InvGamma(theta; alpha, beta) *
+   ConstantCoalescent(T | theta), the latter through its statistic S and event count m *)
+Lemma const_integrated_is_integral_l alpha beta m S :
+  0 < alpha -> 0 < beta -> 0 <= S ->
+  is_RInt_gen (fun theta => exp (invgamma_logpdf NumR alpha beta (Lg alpha) theta) *
+                            exp (const_value NumR m S theta))
+    (at_right 0) (Rbar_locally p_infty)
+    (exp (const_integrated_value NumR alpha beta (Lg alpha) (Lg (alpha + INR m)) m S)).
+Proof.
+  intros Ha Hb HS.
+  assert (0 <= INR m) by apply pos_INR.
+  eapply scaled_kernel_integral.
+  - intros t. apply const_integrand_product_l.
+  - apply invgamma_kernel; lra.
+  - apply const_integrated_value_l.
+Qed.
+End Oracle.
